@@ -114,7 +114,7 @@ def _patches(valid='all'):
     return make
 
 
-def body(ctx, conv, shape, bounds, nan_cells=None, mesh_opts=None, history=False, data_first=False):
+def body(ctx, conv, shape, bounds, nan_cells=None, mesh_opts=None, history=False, data_first=False, twin=False):
     from emsarray.operations import geometry as G
     from emsarray.state import State
     data = None
@@ -139,6 +139,10 @@ def body(ctx, conv, shape, bounds, nan_cells=None, mesh_opts=None, history=False
     for n in present:
         ctx.check(pipeline.ring_matches(geo.poly_coords(polygons[n]), P.corners(n)), "polygon n is built from cell n's own coordinates")
         ctx.check(tuple(cv.wind_index(n)) == tuple(P.native(n)), 'native index n is the row-major native index of cell n')
+    if twin:
+        # the geometry has been worked out on one Dataset object; what is exported is a second object that shares its
+        # arrays (a shallow copy, a selection of variables): same content, same cells
+        ds = ds.copy()
     os.makedirs(os.path.join(VERIF, '.work'), exist_ok=True)
     work = tempfile.mkdtemp(dir=os.path.join(VERIF, '.work'), prefix='c15-')
     try:
@@ -185,8 +189,12 @@ def body(ctx, conv, shape, bounds, nan_cells=None, mesh_opts=None, history=False
             fn(ds, os.path.join(work, path))
             if ctx.symbolic:
                 parts = Recorded.multi
-                ctx.check(len(parts) == len(present) and all(a is polygons[n] for a, n in zip(parts, present)),
-                          f'{fmt}: exactly the cells that have polygons, in linear order')
+                if twin:
+                    ctx.check(len(parts) == len(present) and And(*[pipeline.ring_matches(geo.poly_coords(a), geo.poly_coords(polygons[n])) for a, n in zip(parts, present)]),
+                              f'{fmt}: exactly the cells that have polygons, in linear order')
+                else:
+                    ctx.check(len(parts) == len(present) and all(a is polygons[n] for a, n in zip(parts, present)),
+                              f'{fmt}: exactly the cells that have polygons, in linear order')
             else:
                 raw = open(os.path.join(work, path), mode).read()
                 g = shapely.from_wkt(raw) if fmt == 'WKT' else shapely.from_wkb(raw)
@@ -356,6 +364,14 @@ def cases(tier):
         for mo in (dict(), dict(start_index=1, fill='attr' if mesh in ('tqp', 'tq') else 'none', supply=('edge_node',))):
             tag = '+'.join(f'{k}={v}' for k, v in mo.items()) or 'default'
             yield Case(f'ugrid:{mesh}:{tag}', body, dict(conv='ugrid', shape=mesh, bounds='none', mesh_opts=mo), patches=_patches(), max_paths=100)
+
+
+    for mesh, mo in (('fan', dict(start_index=1, fill='none', supply=('edge_node',))), ('tqp', dict(start_index=1, fill='attr', fill_value=0))):
+        tag = '+'.join(f'{k}={v}' for k, v in mo.items())
+        yield Case(f'ugrid:{mesh}:{tag}:second-dataset-object', body, dict(conv='ugrid', shape=mesh, bounds='none', mesh_opts=mo, twin=True),
+                   patches=_patches(), max_paths=100)
+    yield Case('cf2d:2x2:stored:nanall:second-dataset-object', body, dict(conv='cf2d', shape=(2, 2), bounds='stored', nan_cells=None, twin=True),
+               patches=_patches(), max_paths=5000, split=8)
 
 
 def functions():
